@@ -1,1 +1,48 @@
+(* C10_Spec.v — what property C10 promises, stated over what an observer of the runner sees
+   (what sendRequest returned, which callbacks were invoked with what, isRunning, what
+   waitForResponses does) and over what the client wrote; no reference to pendingOps, the
+   mutexes or the reader's internal phases beyond "the reader has exited". *)
 From V Require Export C10_Model.
+Open Scope N_scope.
+
+(* ---------- observations ---------- *)
+(* how often request i's callback has been invoked *)
+Definition times_fired (i : N) (s : st) : nat := length (fired_of i s.(fired)).
+
+(* sendRequest for request i returned nil / returned an error / has not been called *)
+Definition accepted (s : st) (i : N) : Prop := s.(phase_of) i = Ret None.
+Definition refused (s : st) (i : N) : Prop := exists e, s.(phase_of) i = Ret (Some e).
+Definition not_called (s : st) (i : N) : Prop := s.(phase_of) i = Idle.
+
+(* the reader goroutine has exited (the `done` channel is closed): what waitForResponses waits for *)
+Definition reader_exited (s : st) : Prop := s.(rd) = RDone.
+
+(* the reader left its loop because of a client failure (anything but a clean end of output) *)
+Definition reader_failed (s : st) : Prop :=
+  exists r, r <> REof /\ (s.(rd) = RStop1 r \/ s.(rd) = RStop2 r).
+
+(* ---------- what the client wrote ---------- *)
+(* everything the script's client writes to its stdout, in order *)
+Fixpoint written (h : list action) : bytes :=
+  match h with
+  | [] => []
+  | COut bs :: r => bs ++ written r
+  | _ :: r => written r
+  end.
+
+(* the client's output contains a well-formed frame (4-byte big-endian length, then that many
+   bytes) whose body is a response naming test n with marker tag *)
+Definition client_wrote (h : list action) (n : name) (tag : bytes) : Prop :=
+  exists pre pfx m post,
+    written h = pre ++ pfx ++ m ++ post /\
+    length pfx = 4%nat /\ be_decode pfx 0 = N.of_nat (length m) /\
+    decode m = Some (n, tag).
+
+(* ---------- the canonical way out of any state ---------- *)
+(* the client process ends (environment), the writer that was in flight gets its error, the
+   reader sees the end of the output and cleans up *)
+Definition wind_down (s : st) : list action :=
+  ProcExit false false ::
+  match s.(mu) with Some i => [WriteFail i] | None => [] end ++ [RStep; RClose; RDrain].
+
+Definition run_from (s : st) (h : list action) : st := fold_left step h s.
